@@ -30,40 +30,39 @@ Qed.
 Lemma approx_zero_one : Qapprox_zero (1 # 1) (4 # 1) = false.
 Proof. reflexivity. Qed.
 
-(* feMorphology: two radius lists whose RESOLVED values (number * scale) agree and are not negative give the same radii,
-   whatever the two scales are: zero and one-zero radii included (the fallbacks act on the resolved values) *)
+(* feMorphology: two radius lists whose RESOLVED values (number * scale) agree give the same radii, whatever the two
+   scales are: zero, one-zero and negative radii included (fallbacks and sign test act on the resolved values, the
+   fallback radius is a constant) *)
 Lemma morph_radii_compat l l' x y x' y' sc sc' :
   morph_pair l = (x, y) -> morph_pair l' = (x', y') ->
   x * sz_w sc == x' * sz_w sc' -> y * sz_h sc == y' * sz_h sc' ->
-  0 <= x * sz_w sc -> 0 <= y * sz_h sc ->
   fst (morph_radii (Some l) sc) == fst (morph_radii (Some l') sc') /\
   snd (morph_radii (Some l) sc) == snd (morph_radii (Some l') sc').
 Proof.
-  intros El El' Ea Eb Pa Pb. unfold morph_radii. rewrite El, El'. unfold morph_fix. cbv zeta.
+  intros El El' Ea Eb. unfold morph_radii. rewrite El, El'. unfold morph_fix. cbv zeta.
   set (a := x * sz_w sc) in *. set (b := y * sz_h sc) in *.
   set (a' := x' * sz_w sc') in *. set (b' := y' * sz_h sc') in *.
   clearbody a b a' b'.
-  rewrite <- (approx_zero_eq a a' (4 # 1) Ea), <- (approx_zero_eq b b' (4 # 1) Eb).
-  assert (Qa : Qleb 0 a = true) by (apply Qleb_true; exact Pa).
-  assert (Qb : Qleb 0 b = true) by (apply Qleb_true; exact Pb).
-  assert (Qa' : Qleb 0 a' = true) by (apply Qleb_true; lra).
-  assert (Qb' : Qleb 0 b' = true) by (apply Qleb_true; lra).
   assert (Q1 : Qleb 0 (1 # 1) = true) by reflexivity.
+  assert (La : Qleb 0 a' = Qleb 0 a) by (apply Qleb_eq; [reflexivity|symmetry; exact Ea]).
+  assert (Lb : Qleb 0 b' = Qleb 0 b) by (apply Qleb_eq; [reflexivity|symmetry; exact Eb]).
   destruct (Qapprox_zero a (4 # 1)) eqn:EA; destruct (Qapprox_zero b (4 # 1)) eqn:EB;
     repeat (progress (cbn [andb negb]; cbv beta iota;
                       rewrite <- ?(approx_zero_eq a a' (4 # 1) Ea), <- ?(approx_zero_eq b b' (4 # 1) Eb), ?approx_zero_one, ?EA, ?EB));
     unfold morph_positive, morph_scaled, positive_new, Qsign_positive;
-    rewrite ?Qa, ?Qb, ?Qa', ?Qb', ?Q1; cbn [andb fst snd]; cbv beta iota; cbn [fst snd];
-    split; first [ reflexivity | assumption | lra ].
+    rewrite ?La, ?Lb, ?Q1;
+    destruct (Qleb 0 a); destruct (Qleb 0 b);
+    cbn [andb fst snd]; cbv beta iota; cbn [fst snd];
+    split; first [ reflexivity | assumption ].
 Qed.
 
 (* the parameters resolved under primitiveUnits=objectBoundingBox for the box B are those of the same primitive
-   written in user space with its numbers mapped through B (full strength for every given feMorphology radius that
-   is not negative: zero and one-zero radii included) *)
-Lemma param_equiv p B : 0 < rw B -> 0 < rh B -> KnownClass_morph_fallback p = false ->
+   written in user space with its numbers mapped through B: FULL strength, every attribute value (feMorphology radius
+   absent, negative, zero, one-zero, positive) *)
+Lemma param_equiv p B : 0 < rw B -> 0 < rh B ->
   rparam_eqb (resolve_param p (rw B, rh B)) (resolve_param (map_param p B) (1, 1)) = true.
 Proof.
-  intros Hw Hh Hreg.
+  intros Hw Hh.
   destruct p as [|a b c|dx dy|dx dy a b c|r|s]; simpl.
   - reflexivity.
   - unfold std_dev. destruct (std_dev_pair a b c) as [x y]. simpl.
@@ -74,33 +73,18 @@ Proof.
   - unfold std_dev. destruct (std_dev_pair a b c) as [x y]. simpl.
     unfold std_dev_scaled, shadow_dx, shadow_dy, sz_w, sz_h. simpl.
     repeat (apply andb_true_intro; split); apply Qeqb_intro; try (apply pos_or_zero_eq); ring.
-  - destruct r as [l|]; simpl in Hreg; [|discriminate].
+  - destruct r as [l|]; [|reflexivity].
     destruct (morph_pair l) as [x y] eqn:El.
-    apply orb_false_elim in Hreg as [H1 H2]. apply Qltb_false in H1, H2.
     cbn [map_param resolve_param].
     assert (K := morph_radii_compat l [x * rw B; y * rh B] x y (x * rw B) (y * rh B) (rw B, rh B) (1, 1) El eq_refl).
     unfold sz_w, sz_h in K. cbn [fst snd] in K.
-    assert (Pa : 0 <= x * rw B) by nra. assert (Pb : 0 <= y * rh B) by nra.
-    specialize (K ltac:(ring) ltac:(ring) Pa Pb).
+    specialize (K ltac:(ring) ltac:(ring)).
     destruct (morph_radii (Some l) (rw B, rh B)) as [p q].
     destruct (morph_radii (Some [x * rw B; y * rh B]) (1, 1)) as [p' q'].
     cbn [fst snd] in K. destruct K as [K1 K2]. cbn [rparam_eqb].
     apply andb_true_intro; split; apply Qeqb_intro; assumption.
   - unfold displace_scale, sz_w, sz_h. simpl. apply Qeqb_intro. field.
 Qed.
-
-(* the class is real: a negative or absent radius falls back to the scale (box size vs 1) *)
-Lemma morph_fallback_refuted :
-  exists p B, 0 < rw B /\ 0 < rh B /\ KnownClass_morph_fallback p = true /\
-    rparam_eqb (resolve_param p (rw B, rh B)) (resolve_param (map_param p B) (1, 1)) = false.
-Proof.
-  exists (FP_morph (Some [-(1); 3])), {| rx := 10; ry := 10; rw := 50; rh := 20 |}.
-  vm_compute. repeat split; reflexivity.
-Qed.
-Lemma morph_absent_refuted :
-  let B := {| rx := 10; ry := 10; rw := 50; rh := 20 |} in
-  resolve_param (FP_morph None) (rw B, rh B) = RP_morph 50 20 /\ resolve_param (map_param (FP_morph None) B) (1, 1) = RP_morph 1 1.
-Proof. vm_compute. split; reflexivity. Qed.
 
 (* what the stored numbers are: stdDeviation never negative, offsets linear in the box size *)
 Lemma std_dev_spec a b c sc :
